@@ -36,6 +36,16 @@ CHECKS["C08"] = dict(engine="merge", category="exploration",
 CHECKS["C09"] = dict(engine="merge", category="exploration",
    text="Same runs as C08: at the final quiescent point the OK and COUNT replies are counted per request and compared with the children's verdicts, reasons and counts (conjunction, first rejecting reason as prefix, maximum), and no aggregate may precede the last child's reply. Sampling, not proof.",
    note=MERGE_NOTE, technique="deterministic simulation: seeded reply interleavings + aggregation oracle at quiescence", design="3/C09")
+MW_NOTE = "Trusted: cooperative scheduler + instrumenter, testing/synctest fake clock, the per-middleware reference models in mw_engine.go (written from the statements); the downstream handler and the clients are harness stand-ins."
+CHECKS["C17"] = dict(engine="mw-limits", category="exploration",
+   text="Seeded search over middleware stacks (any order of the limit middlewares, or the chain built from a NIP-11 document incl. nil document / no limitation block), message sizes around every limit, created_at around each window under a simulated clock with jumps, stalled readers and schedules: each client message must be forwarded pointer-identical and in order or answered by exactly one rejection of its type and not forwarded, as the per-middleware specification decides; all server messages pass identical and in order. Sampling, not proof.",
+   note=MW_NOTE, technique="deterministic simulation: seeded messages, clock jumps and schedules + per-message spec predicate", design="3/C17")
+CHECKS["C18"] = dict(engine="mw-stateful", category="exploration",
+   text="Same harness with one stateful middleware (subscription quota, receive-side or send-side unique filter) shared by 1-3 concurrent connections: every connection is judged against its own reference model (quota exactly; LRU window as a relation), plus the invariant that downstream never sees more than N ids open. Sampling, not proof.",
+   note=MW_NOTE, technique="deterministic simulation: seeded histories and interleavings + per-connection reference model", design="3/C18")
+CHECKS["C19"] = dict(engine="mw-metrics", category="exploration",
+   text="Same harness with the Prometheus middleware and 1-4 concurrent sessions: transparency as in C17, and at every sync point, at the end and after all sessions ended Gather() is compared with the harness truth (connection gauge = live sessions; per-type and per-kind counters exact; subscription gauge within the set of values reachable by linearizations of REQ/CLOSE/CLOSED consistent with their stamped intervals). Sampling, not proof.",
+   note=MW_NOTE, technique="deterministic simulation: seeded histories and interleavings + gauge/counter oracle at quiescent points", design="3/C19")
 ALL = ["C%02d" % i for i in range(1, 21)]
 PENDING = "check not built yet in this revision of /verif (planned: DESIGN.md section 3); not claimed"
 m = {
@@ -52,6 +62,7 @@ m = {
    {"name": "router", "path": "sim/props/c07_router.go", "serves_properties": ["C07"], "kind_free_text": "deterministic simulation, statement-level cooperative scheduling, history oracle"},
    {"name": "concurrent-cache", "path": "sim/props/c15_concurrent.go", "serves_properties": ["C15"], "kind_free_text": "statement-level interleavings of cache operations, porcupine linearizability check"},
    {"name": "merge", "path": "sim/props/merge_engine.go", "serves_properties": ["C08", "C09"], "kind_free_text": "real MergeHandler over scripted children, every emission a scheduler decision"},
+   {"name": "mw-limits / mw-stateful / mw-metrics", "path": "sim/props/mw_engine.go", "serves_properties": ["C17", "C18", "C19"], "kind_free_text": "middleware stacks between scripted clients and a recording downstream, simulated clock"},
    {"name": "cache", "path": "sim/props/cache_engine.go", "serves_properties": ["C03", "C04", "C05"], "kind_free_text": "seeded operation and restart-fault sequences against an executable specification (relation)"},
  ],
  "checks": [],
